@@ -39,6 +39,8 @@ def _is_finalize(n, var="render_data"):
 
 
 def run(ck, m):
+    from rules.common import rule_memo_safety
+    rule_memo_safety(ck, m, "MEMO", "C10")          # first: a memoised helper also hides the code it wraps from the rules below
     # ---- R1 ----------------------------------------------------------------------------
     fin = m.get(TY, "RenderData.finalize")
     calls = [c for c in body_walk(fin) if isinstance(c, ast.Call) and norm(expand(fin, c.func)).endswith("_finalize_render_data_")]
@@ -234,8 +236,6 @@ def run(ck, m):
                     ck.ob("R6", enclosing_stmt(c), "self._finalize_data" in econds(fn_, c), f"{qq}: the iterator may finalize only render data it owns (guard `self._finalize_data`)", stmt=f"{qq}: finalize under _finalize_data")
     ck.expect(n_fin >= 4, f"expected >= 4 finalize() call sites, found {n_fin}")
 
-    from rules.common import rule_memo_safety
-    rule_memo_safety(ck, m, "MEMO", "C10")
 
 
 MUTANTS = [
